@@ -66,6 +66,8 @@ class Oracle:
 
     def _deref(self, body, text, env):
         b, c, k = body.get("register_multiplier"), body.get("constant_multiplier"), body.get("constant_offset")
+        if (b is None) != (c is None):
+            return False
         for a in self._deref_alts(body["main_reg"], "reg", env):
             mids = [""]
             if b is not None:
